@@ -8,6 +8,8 @@ mod refmodel;
 mod spec;
 mod wmodel;
 
+mod c01;
+mod c02;
 mod c03;
 mod c04;
 mod c05;
@@ -27,10 +29,12 @@ use ctx::{Ctx, Mode, Tier};
 #[global_allocator]
 static GLOBAL: alloc::Counting = alloc::Counting;
 
-const PROPS: &[&str] = &["C03", "C04", "C05", "C06", "C07", "C08", "C09", "C12", "C13", "C14", "C15", "C16", "C17"];
+const PROPS: &[&str] = &["C01", "C02", "C03", "C04", "C05", "C06", "C07", "C08", "C09", "C12", "C13", "C14", "C15", "C16", "C17"];
 
 fn run_check(ctx: &mut Ctx) {
     match ctx.prop.as_str() {
+        "C01" => c01::run(ctx),
+        "C02" => c02::run(ctx),
         "C03" => c03::run(ctx),
         "C04" => c04::run(ctx),
         "C05" => c05::run(ctx),
